@@ -186,6 +186,11 @@ def eval_op(case):
                 calls, _ = run_op(op, vals, mode, dev)
                 for i, (st, pr, site) in enumerate(calls):
                     nstat += 1
+                    if w in ('plain', 'RETURN', ''):
+                        # harmless values (also: all arguments equal, the empty string): whatever branch the client code
+                        # takes for them, the statement must be well-formed in its own right
+                        for clause, msg in cypherlex.well_formed(st, pr):
+                            bad(site, clause, f'[{site}, reached via {op} with {p}={w!r}] {msg}\n    statement: {st!r}')
                     if i >= len(calls_b) or calls_b[i][2] != site:
                         continue          # value-dependent control flow in client code; no baseline statement to compare with
                     st0 = calls_b[i][0]
